@@ -23,7 +23,11 @@ impl<A: Actor> Spawner<A> for AsyncStdSpawner {
 
                 if let Some(handle) = handle.take() {
                     // TODO: don 't eat the error
-                    handle.await.ok()
+                    // awaiting a task that panicked panics in the awaiter: report it as `None`
+                    futures::FutureExt::catch_unwind(std::panic::AssertUnwindSafe(handle))
+                        .await
+                        .ok()
+                        .and_then(Result::ok)
                 } else {
                     None
                 }
